@@ -90,8 +90,8 @@ func paramsFor(prop, tier string) params {
 
 func cases(prop, tier string) int {
 	n := map[string][2]int{
-		"C01": {260, 5000}, "C02": {320, 5000}, "C03": {320, 5000}, "C04": {260, 5000},
-		"C05": {120, 1500}, "C06": {220, 3000}, "C08": {260, 4000}, "C10": {260, 5000},
+		"C01": {900, 8000}, "C02": {2400, 20000}, "C03": {2400, 20000}, "C04": {900, 8000},
+		"C05": {450, 3000}, "C06": {700, 6000}, "C08": {500, 6000}, "C10": {900, 8000},
 	}[prop]
 	if tier == "thorough" {
 		return n[1]
@@ -119,6 +119,7 @@ func main() {
 		"scenario templates; monitors run after every step. Non-trivial and distinct: fingerprint = property-specific situation " +
 		"actually observed in the case (see counters), combined with workload-kind/policy mix and topology shape."
 	pr := paramsFor(fl.Prop, fl.Tier)
+	focus = fl.Prop
 	n := cases(fl.Prop, fl.Tier)
 	if v := os.Getenv("VERIF_CASES"); v != "" {
 		fmt.Sscan(v, &n)
